@@ -3,6 +3,7 @@ from pathlib import Path
 import pandas as pd
 
 from visions.backends.pandas.series_utils import series_handle_nulls, series_not_empty
+from visions.types.file import path_exists
 from visions.types.image import Image
 from visions.utils.images.image_utils import path_is_image
 
@@ -11,4 +12,4 @@ from visions.utils.images.image_utils import path_is_image
 @series_not_empty
 @series_handle_nulls
 def image_contains(series: pd.Series, state: dict) -> bool:
-    return all(isinstance(p, Path) and p.exists() and path_is_image(p) for p in series)
+    return all(isinstance(p, Path) and path_exists(p) and path_is_image(p) for p in series)
